@@ -242,7 +242,12 @@ def feat_table(feats, version=2):
             recs += be16(f['id'], len(st)) + be32(off) + be16(f.get('flags', 0), f.get('label', 256))
         for v, l in st:
             sets += be16(v, l)
-    return hdr + recs + sets
+    out = hdr + recs + sets
+    # the engine sizes its sanity check with the 16-byte (v2) record for both versions: a v1 table with few settings
+    # must be padded to 12 + 16 n bytes or the (valid) font is refused
+    if len(out) < 12 + 16 * n:
+        out += b'\0' * (12 + 16 * n - len(out))
+    return out
 
 
 def sill_table(langs):
